@@ -103,10 +103,12 @@ func NewProcess(opts ...ProcOpts) *Process {
 }
 
 func (p *Process) run() int {
+	verifYield("run.enter", p.getName())
 	if p.isState(types.ProcessStateTerminating) {
 		return 0
 	}
 
+	verifYield("run.afterTermCheck", p.getName())
 	if err := p.validateProcess(); err != nil {
 		log.Error().Err(err).Msgf(`Failed to run command ["%v"] for process %s`, strings.Join(p.getCommand(), `" "`), p.getName())
 		p.onProcessEnd(types.ProcessStateError)
@@ -116,6 +118,7 @@ func (p *Process) run() int {
 	p.onProcessStart()
 loop:
 	for {
+		verifYield("run.beforeLaunch", p.getName())
 		err := p.setStateAndRun(p.getStartingStateName(), p.getProcessStarter())
 		if err != nil {
 			log.Error().Err(err).Msgf(`Failed to run command ["%v"] for process %s`, strings.Join(p.getCommand(), `" "`), p.getName())
@@ -137,6 +140,7 @@ loop:
 
 		p.waitForStdOutErr()
 		_ = p.command.Wait()
+		verifYield("run.afterWait", p.getName())
 		p.Lock()
 		p.setExitCode(p.command.ExitCode())
 		p.Unlock()
@@ -163,10 +167,12 @@ loop:
 			log.Debug().Str("process", p.getName()).Msg("process stopped while waiting to restart")
 			break loop
 		case <-time.After(p.getBackoff()):
+			verifYield("run.afterBackoff", p.getName())
 			p.handleInfo("\n")
 			continue
 		}
 	}
+	verifYield("run.end", p.getName())
 	p.onProcessEnd(types.ProcessStateCompleted)
 	return p.getExitCode()
 }
@@ -232,6 +238,9 @@ func (p *Process) getProcessStarter() func() error {
 }
 
 func (p *Process) getCommander() command.Commander {
+	if c := verifCommander(p); c != nil {
+		return c
+	}
 	if p.procConf.IsTty && !p.isMain {
 		return command.BuildPtyCommand(
 			p.procConf.Executable,
@@ -266,6 +275,9 @@ func (p *Process) getBackoff() time.Duration {
 	backoff := 1
 	if p.procConf.RestartPolicy.BackoffSeconds > backoff {
 		backoff = p.procConf.RestartPolicy.BackoffSeconds
+	}
+	if d, ok := verifBackoff(backoff); ok {
+		return d
 	}
 	return time.Duration(backoff) * time.Second
 }
@@ -376,6 +388,7 @@ func (p *Process) internalStop() error {
 
 func (p *Process) stopProcess(cancelReadinessFuncs bool) error {
 	p.runCancelFn()
+	verifYield("stop.afterCancel", p.getName())
 	if !p.isRunning() {
 		log.Debug().Msgf("process %s is in state %s not shutting down", p.getName(), p.getStatusName())
 		// prevent pending process from running
@@ -384,6 +397,7 @@ func (p *Process) stopProcess(cancelReadinessFuncs bool) error {
 		}
 		return nil
 	}
+	verifYield("stop.afterCheck", p.getName())
 	p.setState(types.ProcessStateTerminating)
 	p.stopProbes()
 	if cancelReadinessFuncs {
@@ -617,6 +631,7 @@ func (p *Process) handleOutput(pipe io.ReadCloser, output string, handler func(m
 		if p.procConf.ReadyLogLine != "" && p.procState.Health == types.ProcessHealthUnknown && strings.Contains(line, p.procConf.ReadyLogLine) {
 			p.procState.Health = types.ProcessHealthReady
 			p.readyLogCancelFn(nil)
+			verifHealth(p)
 		}
 		p.checkElevatedProcOutput(line)
 		handler(strings.TrimSuffix(line, "\n"))
@@ -730,6 +745,7 @@ func (p *Process) onStateChange(state string) {
 	case types.ProcessStateTerminating:
 		p.procState.Health = types.ProcessHealthUnknown
 	}
+	verifStateChange(p, state)
 }
 
 func (p *Process) getStartingStateName() string {
@@ -797,6 +813,7 @@ func (p *Process) onLivenessCheckEnd(_, isFatal bool, err string) {
 func (p *Process) onReadinessCheckEnd(isOk, isFatal bool, err string) {
 	if isFatal {
 		p.procState.Health = types.ProcessHealthNotReady
+		verifHealth(p)
 		log.Info().Msgf("%s is not ready anymore - %s", p.getName(), err)
 		p.logBuffer.Write("Error: readiness check fail - " + err)
 		_ = p.internalStop()
@@ -806,6 +823,7 @@ func (p *Process) onReadinessCheckEnd(isOk, isFatal bool, err string) {
 	} else {
 		p.procState.Health = types.ProcessHealthNotReady
 	}
+	verifHealth(p)
 }
 
 func (p *Process) validateProcess() error {
